@@ -34,6 +34,8 @@ CONSTANTS Mode,      \* "mc": one aggregate, every prefix checked | "gen": pool 
           Emit,      \* BOOLEAN: print VCASE lines
           CharSigned, \* BOOLEAN: plain char is signed on the target (x86_64: TRUE; aarch64, riscv64: FALSE)
           EUSuffixed, \* enum mode: values that are also tried with a `u` suffix
+          GenClasses, \* "gen": member classes the generator may pick (subset of Classes)
+          GenPacked,  \* "gen": whether packed structs are generated
           CheckSim   \* BOOLEAN: assert the one-step simulation condition in every Add (all-lengths check with VIEW AccView)
 
 AllDevs == {"EnumFirstZeroUnsigned",  \* decl.c:260 the wrap test `value == 0 && !et->issigned` also fires for the first, implicit 0 of a fixed unsigned enum
@@ -482,7 +484,7 @@ AddAnonymous ==
 
 Pick ==
   /\ Mode = "gen" /\ phase = "build" /\ pick = "" /\ Len(ms) < want
-  /\ \E c \in Classes :
+  /\ \E c \in GenClasses :
        /\ c = "bitfield" => ~st.pk
        /\ c \in {"nested", "anon"} => Nestable(st.un) # {}
        /\ c = "flex" => GenMembers(c, st.un, Len(ms) + 1 = want) # {} /\ ~st.pk
@@ -493,6 +495,7 @@ Begin ==
   /\ Mode = "gen" /\ phase = "idle" /\ Len(pool) < MaxPool
   /\ \E un \in BOOLEAN, pk \in BOOLEAN, n \in 1..MaxLen :
        /\ un => ~pk                       \* cproc: packed is only accepted on struct
+       /\ pk => GenPacked
        /\ st' = Acc0(un, pk) /\ want' = n
   /\ ms' = <<>> /\ outs' = <<>> /\ phase' = "build" /\ pick' = ""
   /\ UNCHANGED pool
